@@ -38,7 +38,7 @@ Section Comb.
     { split; [apply pow_le; lra|]. rewrite <- (pow1 j). apply pow_incr. lra. }
     set (st' := out * (1 - d) + st * d).
     assert (Hst' : Rabs st' <= B + d ^ S j * (W - B)).
-    { unfold st'. eapply Rle_trans; [apply Rabs_triang|]. match goal with |- ?G => idtac G end. rewrite !Rabs_mult.
+    { unfold st'. eapply Rle_trans; [apply Rabs_triang|]. rewrite !Rabs_mult.
       rewrite (Rabs_right (1 - d)) by lra. rewrite (Rabs_right d) by lra. cbn [pow].
       assert (Rabs st * d <= (B + d ^ j * (W - B)) * d) by (apply Rmult_le_compat_r; lra).
       assert (Rabs out * (1 - d) <= B * (1 - d)) by (apply Rmult_le_compat_r; lra).
@@ -49,11 +49,12 @@ Section Comb.
       assert (d ^ S j * (W - B) <= 1 * (W - B)) by (apply Rmult_le_compat_r; lra). lra. }
     split; [|exact Hout].
     split; [|split].
-    - intros [|i] Hi; cbn [nth].
-      + replace (0 + st' * f) with (st' * f) by ring. rewrite Rabs_mult, (Rabs_right f) by lra.
+    - intros [|i] Hi; cbn [fst nth].
+      + match goal with |- Rabs ?t <= _ => replace t with (st' * f) by (unfold st', out; ring) end.
+        rewrite Rabs_mult, (Rabs_right f) by lra.
         rewrite (Rmult_comm f). apply Rmult_le_compat_r; lra.
       + apply Hnew. lia.
-    - intros [|i] Hi; [lia|]. cbn [nth]. apply Hold. lia.
+    - intros [|i] Hi; [lia|]. cbn [fst nth]. apply Hold. lia.
     - exact Hst'.
   Qed.
 
@@ -167,3 +168,48 @@ Section Comb.
           exact O2.
   Qed.
 End Comb.
+
+(** the same for the model's comb (array + running index), in whatever state it is *)
+Theorem model_comb_decays : forall (N : nat) (f d : R) (c : @comb R) (s : line * R) (m : nat) (W : R),
+    (1 <= N)%nat -> 0 <= f < 1 -> 0 <= d < 1 ->
+    comb_rel N c s -> 0 <= W -> bounded N W W s ->
+    forall n, (n < m * (N + N))%nat ->
+      Rabs (nth n (snd (run_frames (comb_step f d) c (repeat 0 (m * (N + N))))) 0) <= rho N f d ^ (n / (N + N)) * W.
+Proof.
+  intros N f d c s m W HN Hf Hd Hrel HW Hb n Hn.
+  assert (E : snd (run_frames (comb_step f d) c (repeat 0 (m * (N + N)))) =
+              snd (run_frames (lbcf_step N f d) s (repeat 0 (m * (N + N))))).
+  { apply (run_sim (comb_step f d) (lbcf_step N f d) (comb_rel N)); [|exact Hrel].
+    intros c1 s1 x Hr. apply comb_sim; assumption. }
+  rewrite E, <- iter_zero_is_run.
+  destruct (comb_decays N HN f d Hf Hd m W s HW Hb) as [_ H]. apply H. exact Hn.
+Qed.
+
+(** every state is bounded by some W, and rho^m W falls below every eps *)
+Lemma geometric_vanishes : forall r W, 0 <= r < 1 -> 0 <= W ->
+    forall eps, 0 < eps -> exists M, forall m, (M <= m)%nat -> r ^ m * W < eps.
+Proof.
+  intros r W Hr HW eps He. destruct (Req_dec W 0) as [->|NW].
+  - exists 0%nat. intros m _. rewrite Rmult_0_r. exact He.
+  - destruct (pow_lt_1_zero r ltac:(rewrite Rabs_right; lra) (eps / W) ltac:(apply Rdiv_lt_0_compat; lra)) as [M HM].
+    exists M. intros m Hm. specialize (HM m ltac:(lia)). rewrite Rabs_right in HM by (apply Rle_ge, pow_le; lra).
+    apply (Rmult_lt_compat_r W) in HM; [|lra]. replace (eps / W * W) with eps in HM by (field; lra). exact HM.
+Qed.
+Lemma comb_state_bounded : forall (N : nat) (s : line * R), exists W, 0 <= W /\ bounded N W W s.
+Proof.
+  intros N [h st]. induction N as [|N [W [HW [Hb Hs]]]].
+  - exists (Rabs st). split; [apply Rabs_pos|]. split; [intros i Hi; lia|cbn; lra].
+  - exists (Rmax W (Rabs (nth N h 0))). split; [eapply Rle_trans; [exact HW|apply Rmax_l]|]. split.
+    + intros i Hi. cbn [fst] in *. destruct (Nat.eq_dec i N) as [->|NE]; [apply Rmax_r|].
+      eapply Rle_trans; [apply Hb; lia|apply Rmax_l].
+    + cbn [snd] in *. eapply Rle_trans; [exact Hs|apply Rmax_l].
+Qed.
+Example decay_hypotheses_satisfiable :
+  (1 <= 1116)%nat /\ 0 <= 9 / 10 < 1 /\ 0 <= 1 / 10 < 1 /\
+  comb_rel 1116 (comb_new 1116) ([], 0) /\ bounded 1116 0 0 ([], 0) /\ 0 <= rho 1116 (9 / 10) (1 / 10) < 1.
+Proof.
+  split; [lia|]. split; [lra|]. split; [lra|]. split; [|split].
+  - split; [reflexivity|]. apply cb_init.
+  - split; [intros i Hi; cbn [fst]; destruct i; cbn; rewrite Rabs_R0; lra|cbn; rewrite Rabs_R0; lra].
+  - apply rho_range; [lia|lra|lra].
+Qed.
